@@ -55,6 +55,10 @@ CHECKS = {
             "exhaustive enumeration of single parameter operations through three front ends over a per-parameter value menu, and of all operation histories up to a depth bound over set/save/load/reset/setSettings/copy for all parameter pairs, each replayed on a fresh object and compared with a parameter-table reference model",
             "For all 82 parameters every value of a menu (bounds, default, 9- and 17-digit interior values, nearest representable values inside and outside each bound, -0.0, +-inf, NaN, +-DBL_MAX, INT_MIN/MAX, all integers of small ranges, OBJSENSE=0, build-restricted choices) through the typed setter, parseSettingsString and a one-line loadSettingsFile, from default and non-default states, with and without an LP loaded or solved, plus whitespace variants and about 25 kinds of malformed line per parameter; set -> save(0/1) -> reset -> load for every accepted value and for all parameters at once; all histories of depth <= 2 (thorough: 3) over {set with accepted and rejected values, save(onlyChanged 0/1), load, reset, setSettings from a second object, copy construction} for all 3321 parameter pairs and 3 initial states. After the last operation: return value, all 82 getters bit for bit, the component or tolerance actually in use, the saved file as parsed by the harness, atomicity of rejected calls, and the LP equal to the dense model with only sense and offset following the parameters.",
             "Trusted: the parameter-table model and the published Settings tables as the documented range. Ten genuine defects are recorded in known_findings.json. Type-prefix and trailing-garbage leniency of the text front ends is counted, not flagged."),
+    "C07": ("model_checking", "DESIGN.md section 3 C07",
+            "exhaustive enumeration of API histories (depth-bounded) over the real and the rational modification interfaces (Rational and mpq_t entry points), each replayed on a fresh object and compared with an exact reference model over GMP rationals",
+            "All histories up to depth 2 (thorough: 3 on a sub-alphabet) over ~120 instantiated calls of the real interface and of the rational interface (LPRowRational/LPColRational, Rational scalars and vectors, mpq_t scalars and arrays), from four initial states in automatic sync mode (empty, loaded, solved and persistently scaled, exactly solved), with values {-inf, 0, 1/3, 1e-320, 2^60+1, +inf, -1, 2, -7/5}. After the last call: the rational LP equals the model exactly (row- and column-wise), the real LP is the floating-point image of the model (one of the two neighbouring doubles; infinities map to infinities), dimensions and sense agree, and _rowTypes/_colTypes equal the classification of the rational bounds. Second phase: manual mode (one-sided histories followed by syncLPReal / syncLPRational) and real-only mode (an exact solve must copy the real LP exactly).",
+            "Trusted: the exact reference model; doubles enter it as the exact rational they are. Whether the real image is the NEAREST double is recorded as an observation, not demanded. One genuine defect is in known_findings.json; the changeObjRational scaling defect was fixed."),
 }
 
 NOT_YET = {}
